@@ -1298,6 +1298,10 @@ class Bpsec(AbstractApplication):
         The container must be reloaded beforehand.
         '''
 
+        if ctr.bundle.primary.bundle_flags & PrimaryBlock.Flag.IS_FRAGMENT:
+            # Security operations are not added to a fragment
+            return
+
         # No configuration here yet
         for ctx in self._contexts.values():
             ctx.apply_bib(ctr)
@@ -1306,6 +1310,10 @@ class Bpsec(AbstractApplication):
         ''' If configured add a BCB.
         The container must be reloaded beforehand.
         '''
+
+        if ctr.bundle.primary.bundle_flags & PrimaryBlock.Flag.IS_FRAGMENT:
+            # Security operations are not added to a fragment
+            return
 
         # No configuration here yet
         for ctx in self._contexts.values():
